@@ -971,6 +971,13 @@ class Load:
         if self.mut_samples is None or self.vector is None or self.vector[0] != "new":
             raise Unsupported("per-mutation DataPoint is not built from (samples, <list built in place>)")
         own = T.own_loops(self.mutdict, self.mut_ev)
+        if len(own) == 1 and own[0][0] == "new":
+            # the loop runs over a list that another loop filled, one entry per pass (a generator of (mutation, rows)
+            # pairs): its order is the order of that loop
+            fills = [e for e in T.events_of(own[0]) if e["kind"] == "append"]
+            if len(fills) == 1 and len(T.events_of(own[0])) == 1 and len(T.own_loops(own[0], fills[0])) == 1 and self._unconditional_in_loop(fills[0], T.own_loops(own[0], fills[0])[0]):
+                self.relay = own[0]
+                own = (T.own_loops(own[0], fills[0])[0],)
         if len(own) != 1 or not T.is_groupby(own[0]):
             raise Unsupported("mutations are not inserted by one loop over a groupby: %s" % [show(x, 2) for x in own])
         self.groupby = own[0]
@@ -981,6 +988,11 @@ class Load:
         self._arms(self.data, ())
         if not self.arms:
             raise Unsupported("no data list found in the return value of load_data")
+
+    def _unconditional_in_loop(self, ev, loop):
+        """Is the event reached on every pass of `loop` (no test between the loop head and the event)?"""
+        heads = [e for e in self.flow.events if e["kind"] == "loop" and e["iter"] == loop and e["fn"] is ev["fn"]]
+        return len(heads) == 1 and len(ev["guards"]) == len(heads[0]["guards"])
 
     def _arms(self, t, guards):
         if t[0] == "cond":
